@@ -729,6 +729,23 @@ def thread_jumps(mirj):
                 continue
             dl = t["discr"]["place"]["local"]
             real = [s for s in J["stmts"] if s["k"] not in ("storagelive", "storagedead")]
+            # the block itself has just built the value it asks the variant of (left behind when a join was copied into its
+            # predecessors): the switch is decided
+            if real and not J.get("cleanup"):
+                ki = None
+                for k_ in range(len(J["stmts"]) - 1, -1, -1):
+                    s_ = J["stmts"][k_]
+                    if s_["k"] == "assign" and s_["place"]["local"] == dl and not s_["place"]["proj"]:
+                        ki = k_
+                        break
+                if ki is not None and J["stmts"][ki]["rv"]["k"] == "discriminant" and not J["stmts"][ki]["rv"]["place"]["proj"]:
+                    v0 = _known_variant(J["stmts"][:ki], J["stmts"][ki]["rv"]["place"]["local"])
+                    if v0 is not None:
+                        arms0 = {int(v): bb for v, bb in t["targets"]}
+                        J["term"] = {"k": "goto", "target": arms0.get(v0, t["otherwise"]), "loc": t.get("loc"), "desugared": "threaded"}
+                        n += 1
+                        changed = True
+                        continue
             if len(real) != 1 or real[0]["k"] != "assign" or real[0]["place"]["local"] != dl or real[0]["rv"]["k"] != "discriminant" or real[0]["rv"]["place"]["proj"]:
                 continue
             L = real[0]["rv"]["place"]["local"]
@@ -841,7 +858,7 @@ def dup_small_joins(mirj):
             if J.get("cleanup") or J["term"]["k"] not in ("goto", "switch", "return"):
                 continue
             real = [s for s in J["stmts"] if s["k"] not in ("storagelive", "storagedead")]
-            if len(real) > 6 or any(s["k"] != "assign" or s["rv"]["k"] not in ("use", "aggregate", "ref", "rawptr") or
+            if len(real) > 6 or any(s["k"] != "assign" or s["rv"]["k"] not in ("use", "aggregate", "ref", "rawptr", "discriminant") or
                                     any(p.get("k") == "deref" for p in s["place"]["proj"]) for s in real):
                 continue
             if J["term"]["k"] == "goto" and not real:
@@ -873,6 +890,10 @@ def dup_small_joins(mirj):
                 d_ = J["term"]["discr"]
                 if d_.get("k") not in ("move", "copy") or d_["place"]["proj"]:
                     continue
+                def _term_defines(stmts, local_):
+                    return any(P_["term"]["k"] == "call" and isinstance(P_["term"].get("dest"), dict) and P_["term"]["dest"].get("local") == local_
+                               and not P_["term"]["dest"].get("proj") and P_["term"].get("target") in preds for P_ in blocks)
+
                 def _flag_in(stmts, local):
                     upto = len(stmts)
                     for _ in range(5):
@@ -892,6 +913,12 @@ def dup_small_joins(mirj):
                             return True
                         if rv_["k"] == "unop" and rv_["op"] == "Not":
                             return True
+                        if rv_["k"] == "discriminant" and isinstance(rv_.get("place"), dict) and not rv_["place"].get("proj"):
+                            # which variant an Option / Result is that this very path has just produced (a combinator chain:
+                            # `a.and_then(f).and_then(g)` matches on what `f` returned)
+                            src_ = rv_["place"]["local"]
+                            return any(s2["k"] == "assign" and s2["place"]["local"] == src_ and not s2["place"]["proj"] for s2 in stmts[:k_]) or \
+                                _term_defines(stmts, src_)
                         if rv_["k"] == "use" and rv_["op"].get("k") in ("move", "copy") and not rv_["op"]["place"]["proj"]:
                             local, upto = rv_["op"]["place"]["local"], k_
                             continue
